@@ -541,3 +541,103 @@ def import_refs_extend_the_importing_layer_only(n_imports):
     # (what the importing layer defines itself is visible through the container fragment, as for every layer)
     H.check("C10:a-sibling-layer-that-imports-nothing-does-not-see-the-imported-objects",
             seen_from_sibling is (local if has_local else None))
+
+
+# ------------------------------------------------------------------------------------------------ Database.refresh
+# after every refresh the ODXLINK database of a Database holds exactly the objects its containers define at that time
+# (an object that was removed is no longer resolvable: a reference to it is dangling, not bound to the stale object)
+from odxtools.database import Database  # noqa: E402
+
+
+class GhostContainer:
+    """a DIAG-LAYER-CONTAINER as Database.refresh() uses it"""
+
+    def __init__(self, name, objects):
+        self.short_name = name
+        self.objects = objects
+        self.diag_layers = []
+        self.ecu_shared_datas = []
+        self.protocols = []
+        self.functional_groups = []
+        self.base_variants = []
+        self.ecu_variants = []
+
+    def _build_odxlinks(self):
+        return {OdxLinkId(lid, [FRAGS[0]]): obj for (lid, obj) in self.objects}
+
+    def _resolve_odxlinks(self, odxlinks):
+        pass
+
+    def _finalize_init(self, database, odxlinks):
+        pass
+
+    def _resolve_snrefs(self, context):
+        pass
+
+
+@harness(props=["C10"], strength="B", family=lambda t, s: [{"edit": e} for e in ("none", "remove", "replace")],
+         bound="one container with two identifiable objects; one of them is removed or replaced between two refreshes",
+         functions=[Database.refresh, Database._build_odxlinks], covers=["refreshed"])
+def refresh_rebuilds_the_link_database(edit):
+    """Database.refresh(): the ODXLINK database holds exactly what the containers define now"""
+    db = Database()
+    keep, victim, substitute = Thing("keep"), Thing("victim"), Thing("substitute")
+    dlc = GhostContainer("dlc", [("keep", keep), ("victim", victim)])
+    db._diag_layer_containers = NamedItemList([dlc])
+    db.refresh()
+    first = db.odxlinks.resolve_lenient(OdxLinkRef("victim", [FRAGS[0]]))
+    if edit == "remove":
+        dlc.objects = [("keep", keep)]
+    elif edit == "replace":
+        dlc.objects = [("keep", keep), ("victim", substitute)]
+    db.refresh()
+    H.cover("refreshed")
+    second = db.odxlinks.resolve_lenient(OdxLinkRef("victim", [FRAGS[0]]))
+    want = {"none": victim, "remove": None, "replace": substitute}[edit]
+    H.check("C10:a-reference-resolves-to-the-object-that-carries-the-id-now", H.And(first is victim, second is want))
+    H.check("C10:untouched-objects-stay-resolvable",
+            db.odxlinks.resolve_lenient(OdxLinkRef("keep", [FRAGS[0]])) is keep)
+
+
+# ---------------------------------------------------------------------------- table rows referenced from another table
+# A table may list rows of another table by TABLE-ROW-REF.  Such a row belongs to the table (and layer) that defines it:
+# its short-name references are resolved there, the referencing table does not touch them.
+
+
+class RecordingRow(TableRow):
+    """a real TableRow whose resolution steps are recorded"""
+
+    def _resolve_odxlinks(self, odxlinks):
+        self.log.append(("odxlinks", self.short_name))
+
+    def _resolve_snrefs(self, context):
+        self.log.append(("snrefs", self.short_name, context.diag_layer))
+
+
+@harness(props=["C10"], strength="B", family=lambda t, s: [{"referenced_first": a} for a in (False, True)],
+         bound="one table with one inline row and one row referenced from another table",
+         functions=[Table._resolve_odxlinks, Table._resolve_snrefs], covers=["resolved"])
+def referenced_table_rows_are_not_rebound(referenced_first):
+    """Table: the rows it offers are the inline rows and the referenced ones, in document order; only the inline rows
+    have their references resolved in this table's context"""
+    log = []
+    inline = RecordingRow.__new__(RecordingRow)
+    inline.short_name, inline.log = "inline", log
+    foreign = RecordingRow.__new__(RecordingRow)
+    foreign.short_name, foreign.log = "foreign", log
+    db = OdxLinkDatabase()
+    db.update({OdxLinkId("row.foreign", [FRAGS[0]]): foreign})
+    ref = OdxLinkRef("row.foreign", [FRAGS[0]])
+    tbl = _obj(Table, "tbl", 1)
+    tbl.key_dop_ref = None
+    tbl.table_diag_comm_connectors = []
+    tbl.table_rows_raw = [ref, inline] if referenced_first else [inline, ref]
+    tbl._resolve_odxlinks(db)
+    ctx = SnRefContext(database=None)
+    ctx.diag_layer = GhostCtxLayer(GhostDDD())
+    tbl._resolve_snrefs(ctx)
+    H.cover("resolved")
+    H.check("C10:a-table-offers-its-inline-and-its-referenced-rows-in-document-order",
+            [r.short_name for r in tbl.table_rows] == (["foreign", "inline"] if referenced_first else ["inline", "foreign"]))
+    H.check("C10:only-inline-rows-are-resolved-in-the-context-of-the-table",
+            [e[1] for e in log] == ["inline", "inline"])
